@@ -2,6 +2,7 @@ package check
 
 import (
 	"fmt"
+	"os"
 	"math/rand"
 	"sort"
 
@@ -16,6 +17,7 @@ type RoundOpts struct {
 	TraceModule  string // default TokenGameTrace
 	MaxSteps     int
 	MaxPerProg   int // cap on schedules per program (seeded sample), 0 = all
+	Simulate     int // > 0: TLC random simulation with that many behaviours instead of exhaustive enumeration
 	Job          JobOpts
 	Invariants   []string
 	ExtraCfg     string
@@ -48,7 +50,7 @@ func (c *Ctx) TokenGameRound(fs []Finding, ps []*prog.Program, o RoundOpts) erro
 	if o.Invariants == nil {
 		o.Invariants = []string{"XNoDeadToken", "XCeaseIffDone", "XReqOnce"}
 	}
-	scheds, _, err := c.ExportSchedules(o.ExportModule, ps, o.MaxSteps, o.ExtraCfg, o.Invariants)
+	scheds, _, err := c.ExportSchedules(o.ExportModule, ps, o.MaxSteps, o.ExtraCfg, o.Invariants, o.Simulate)
 	if err != nil {
 		return fmt.Errorf("%s export: %w", o.Label, err)
 	}
@@ -137,6 +139,12 @@ func (c *Ctx) TokenGameRound(fs []Finding, ps []*prog.Program, o RoundOpts) erro
 				fails[r] = cfails[i]
 			} else {
 				unconfirmed++
+				if unconfirmed <= 3 {
+					dir := VerifRoot + "/replays"
+					os.MkdirAll(dir, 0o755)
+					WriteJSON(fmt.Sprintf("%s/unconfirmed-%s-%s-s%d-%d.json", dir, c.Prop, o.Label, c.Seed, r), map[string]any{
+						"rejection": fails[r], "replay": map[string]any{"program": ps[progOf(r)], "schedule": scheds[r], "log": runs[r]}})
+				}
 			}
 		}
 		if unconfirmed > 0 {
@@ -225,7 +233,13 @@ func capPerProg(s []drive.Schedule, k int, seed int64) []drive.Schedule {
 	}
 	r := rand.New(rand.NewSource(seed))
 	var keep []int
-	for _, idx := range by {
+	progs := make([]int, 0, len(by))
+	for p := range by {
+		progs = append(progs, p)
+	}
+	sort.Ints(progs)
+	for _, p := range progs {
+		idx := by[p]
 		sort.Ints(idx)
 		if len(idx) > k {
 			r.Shuffle(len(idx), func(a, b int) { idx[a], idx[b] = idx[b], idx[a] })
